@@ -63,6 +63,8 @@ func (e event) String() string {
 		return "rejoin-of-a-removed-member@" + e.At
 	case "updpin":
 		return "pin-update(c3->c4)+unpin(c3)@" + e.At
+	case "pinexp":
+		return "pin(c5, expires in 3s)@" + e.At
 	}
 	return e.Kind
 }
@@ -104,7 +106,7 @@ func (h history) shape() string {
 }
 
 func alphabet(n int) []event {
-	a := []event{{Kind: "pin", At: "L", C: 0}, {Kind: "updpin", At: "L"}, {Kind: "join", At: "L"}, {Kind: "rm", At: "L", Tgt: "absent"}, {Kind: "rm", At: "L", Tgt: "L"}, {Kind: "restart"}}
+	a := []event{{Kind: "pin", At: "L", C: 0}, {Kind: "updpin", At: "L"}, {Kind: "pinexp", At: "L"}, {Kind: "join", At: "L"}, {Kind: "rm", At: "L", Tgt: "absent"}, {Kind: "rm", At: "L", Tgt: "L"}, {Kind: "restart"}}
 	if n > 1 {
 		a = append(a,
 			event{Kind: "pin", At: "F", C: 1},
@@ -168,7 +170,7 @@ func enumerate() []history {
 			// length 4 over the membership events only
 			var mem []event
 			for _, e := range al {
-				if e.Kind != "pin" && e.Kind != "unpin" && e.Kind != "updpin" {
+				if e.Kind != "pin" && e.Kind != "unpin" && e.Kind != "updpin" && e.Kind != "pinexp" {
 					mem = append(mem, e)
 				}
 			}
@@ -195,7 +197,7 @@ func enumerate() []history {
 		if !th {
 			// quick: pins first, then every membership event (the pinset must survive)
 			for _, e := range al {
-				if e.Kind == "pin" || e.Kind == "unpin" || e.Kind == "updpin" {
+				if e.Kind == "pin" || e.Kind == "unpin" || e.Kind == "updpin" || e.Kind == "pinexp" {
 					continue
 				}
 				out = append(out, history{N: n, Evs: []event{{Kind: "pin", At: "L", C: 0}, {Kind: "pin", At: "L", C: 2}, e}})
@@ -455,6 +457,21 @@ func (w *world) apply(e event) bool {
 				delete(w.refPins, c.String())
 			}
 		}
+	case "pinexp":
+		// a pin that expires a few seconds later: until some peer's sweep
+		// unpins it (not within these histories) it is part of the pinset
+		// every member - also one that joins or restarts later - must hold
+		at := w.pick(e.At)
+		if at == nil {
+			return false
+		}
+		c := clus.Cid("c5")
+		pin, err := at.p.C.Pin(ctx, c, api.PinOptions{ReplicationFactorMin: 1, ReplicationFactorMax: 1, Name: "pin-expiring", ExpireAt: time.Now().Add(3 * time.Second)})
+		if err != nil {
+			w.viol = append(w.viol, finding{"info:pin-error", err.Error()})
+			return true
+		}
+		w.refPins[c.String()] = noAlloc(pin)
 	case "updpin":
 		// a pin created through pin update whose source is then unpinned (the
 		// documented workflow): its stored options keep the update marker
@@ -602,6 +619,9 @@ func (w *world) apply(e event) bool {
 				}
 				pins, _ := m.p.C.Pins(w.ctx)
 				for _, p := range pins {
+					if !p.ExpireAt.IsZero() && p.ExpireAt.Before(time.Now()) {
+						continue // an expired pin waits for the sweep: it cannot be re-pinned
+					}
 					for _, a := range p.Allocations {
 						if a == tgt {
 							w.fail("pin-still-allocated-to-removed-peer", "after removing member %d, pin %s still lists it as a holder (re-pinning is enabled and every remaining peer has a valid metric)", tm.idx, p.Cid)
